@@ -1,4 +1,5 @@
 import Posmint.Lemmas.Codec
+import Posmint.Lemmas.CoinText
 /-!
 # C20 — Encodings round-trip, sign bytes are canonical, malformed input is refused
 
@@ -183,5 +184,30 @@ example : formatCivil (civilOfNanos 0) = "1970-01-01T00:00:00.000000000".toList.
   decide
 example : civilOfNanos 951782400000000000 = { year := 2000, month := 2, day := 29, hour := 0, minute := 0, second := 0, nano := 0 } := by
   decide +kernel
+
+
+/-! ## the text form of a coin -/
+
+/-- `ParseCoin (Coin.String c) = c` for every valid coin: a denomination of the accepted pattern and an amount below
+2^255 (every non-negative `Int`). -/
+theorem coinText_roundtrip (d : Bytes) (n : Nat) (hd : denomOK d = true) (hn : n < 2 ^ 255) :
+    parseCoinText (coinText d n) = some (d, n) := by
+  have := parseCoinText_spaced d n hd hn [] [] [] rfl rfl rfl
+  simpa [coinText] using this
+
+/-- What the parser accepts is a valid coin: the denomination matches the pattern and the amount is in range. -/
+theorem parseCoinText_sound (s d : Bytes) (n : Nat) (h : parseCoinText s = some (d, n)) :
+    denomOK d = true ∧ n < 2 ^ 255 := parseCoinText_some h
+
+/-- surrounding white space and white space between amount and denomination are ignored -/
+theorem parseCoinText_spaces (d : Bytes) (n : Nat) (hd : denomOK d = true) (hn : n < 2 ^ 255)
+    (pre mid post : Bytes) (hpre : pre.all isSpaceB = true) (hmid : mid.all isSpaceB = true) (hpost : post.all isSpaceB = true) :
+    parseCoinText (pre ++ natDigits n ++ mid ++ d ++ post) = some (d, n) :=
+  parseCoinText_spaced d n hd hn pre mid post hpre hmid hpost
+
+/-- a leading zero announces octal: "017upokt" is fifteen, "08upokt" is refused -/
+example : parseCoinText [48, 49, 55, 117, 112, 111, 107, 116] = some ([117, 112, 111, 107, 116], 15) ∧
+    parseCoinText [48, 56, 117, 112, 111, 107, 116] = none := by
+  decide
 
 end Posmint.Props.C20
